@@ -191,6 +191,8 @@ def r4_close_gating(ctx):
     R.floor("C04.R4", len(writes), 1, "close-notification writes in the subscription task")
     builders = {(c.name() or "").split("::")[-1] for c in task.calls_to(r"sub_message_to_json$|sub_err_to_json$")}
     R.check(builders == {"sub_message_to_json", "sub_err_to_json"}, "C04.R4", "task:both-closing-kinds", "a closing result and a closing error are both turned into a notification", "the close task builds %s only: one kind of closing value is silently dropped" % sorted(builders), "%s:%d" % (task.file, task.lo))
+    lossy = [w for w in writes if not (w.name() or "").endswith("MethodSink::send")]
+    R.check(not lossy, "C04.R4", "task:close-notification-waits-for-room", "the closing notification is sent with the waiting MethodSink::send", "the close task sends the closing notification with %s: when the connection's buffer is full at that moment the subscription's last item / error is silently dropped" % sorted({short(w.name()) for w in lossy}), where(lossy[0]) if lossy else None)
     tj = task.calls_to(r"^futures_util::future::try_join$")
     R.check(len(tj) == 1, "C04.R4", "task:try_join", "the task joins the handler future with the acceptance signal", "the close task no longer waits for try_join(handler, accepted): a rejected / never-accepted subscription can get a close notification", "%s:%d" % (task.file, task.lo))
     ok_t = None
